@@ -45,6 +45,28 @@ fn plain_base(l: HL) -> impl MatchNestedRoutes + Clone + Send + Sync + 'static {
     NestedRoute::new(StaticSegment(""), ()).child(route_table!(move |w: &'static str| StaticSegment(word_s(l, w))))
 }
 
+/// a second table: two consecutive routes whose localized segments are identical in some locales only, then more
+/// routes (the per-locale lists must stay aligned by position)
+fn dup_children() -> impl MatchNestedRoutes + Clone + Send + Sync + 'static {
+    let seg = |w: &'static str| leptos_i18n_router::i18n_path!(HL, move |l: HL| word_s(l, w));
+    (
+        NestedRoute::new(StaticSegment(""), ()),
+        NestedRoute::new(seg("shop"), ()),
+        NestedRoute::new(seg("store"), ()),
+        NestedRoute::new(seg("about"), ()),
+        NestedRoute::new((seg("users"), ParamSegment("id")), ()),
+    )
+}
+fn dup_plain_base(l: HL) -> impl MatchNestedRoutes + Clone + Send + Sync + 'static {
+    NestedRoute::new(StaticSegment(""), ()).child((
+        NestedRoute::new(StaticSegment(""), ()),
+        NestedRoute::new(StaticSegment(word_s(l, "shop")), ()),
+        NestedRoute::new(StaticSegment(word_s(l, "store")), ()),
+        NestedRoute::new(StaticSegment(word_s(l, "about")), ()),
+        NestedRoute::new((StaticSegment(word_s(l, "users")), ParamSegment("id")), ()),
+    ))
+}
+
 fn build_real<C>(base: &'static str, chil: C) -> (impl MatchNestedRoutes + Clone + 'static, verif::Segments<HL>)
 where
     C: MatchNestedRoutes + Clone + Send + Sync + 'static,
@@ -142,6 +164,18 @@ pub fn check_config(cfg: &'static [HL], base: &'static str, thorough: bool) -> R
     }
     if stored.len() != cfg.len() {
         f.problems.push(format!("stored segments hold {} locales, configured {}", stored.len(), cfg.len()));
+    }
+
+    // ---- C3b: a table with routes that coincide in some locales: lists stay complete and in route order --------
+    {
+        let (_real_dup, stored_dup) = build_real(base, dup_children());
+        for l in cfg {
+            let want: Vec<String> = dup_plain_base(*l).generate_routes().into_iter().map(|g| segs_key(&g.segments)).collect();
+            let got: Vec<String> = stored_dup.get(l).cloned().unwrap_or_default().iter().map(|s| segs_key(s)).collect();
+            if got != want {
+                f.problems.push(format!("stored segments of {} for a table with coinciding routes (locales {names:?}) are {got:?}, expected {want:?} (one list entry per route, in route order)", l.as_str()));
+            }
+        }
     }
 
     // ---- C2: match_nested over the path universe -----------------------------------------------------
